@@ -298,7 +298,9 @@ def _avg_case(c, rng, seed, tier, index, cwd):
         if expect_error:
             c.count("error_exits_checked")
             if r.rc == 0:
-                c.viol("exit_zero_on_invalid_name_column", where, detail(rc=r.rc, stderr=r.err[:400], threads=n, columns_in_file=ncol, requested_column=mode))
+                # an empty `rest` is counted as one column by the tool: column 4 of a 3-column file gives an empty name
+                site = tool + ":column_4_of_3_column_bed" if (ncol == 3 and mode == 4) else where
+                c.viol("exit_zero_on_invalid_name_column", site, detail(rc=r.rc, stderr=r.err[:400], threads=n, columns_in_file=ncol, requested_column=mode))
             continue
         if r.rc != 0:
             c.viol("nonzero_exit", where, detail(rc=r.rc, stderr=r.err[:800], threads=n))
